@@ -168,6 +168,14 @@ impl VxValidator {
 // only here) and the fee velocity control inside NodeState
 pub struct VxNodeOn { pub wallet: VxWallet, pub channels: VxChannelsRO, pub fee_velocity_control: VelocityControl, pub rest: VxNodeRest }
 #[verifier::external_body] pub struct VxNodeRest { _p: u8 }
+// core::time::Duration
+#[verifier::external_body] pub struct VxDuration { _p: u8 }
+impl VxDuration {
+    pub uninterp spec fn secs(&self) -> u64;
+    pub uninterp spec fn subsec_millis(&self) -> u32;
+    #[verifier::external_body] pub fn as_secs(&self) -> (r: u64) ensures r == self.secs() { unimplemented!() }
+    #[verifier::external_body] pub fn as_millis(&self) -> (r: u128) ensures r == self.secs() as u128 * 1000 + self.subsec_millis() as u128, self.subsec_millis() < 1000 { unimplemented!() }
+}
 #[verifier::external_body] pub struct VxChannelsRO { _p: u8 }
 #[verifier::external_body] pub struct SecretKeyStack { _p: u8 }
 // the ready channel (if any) whose funding outpoint is `o`, as find_channel_with_funding_outpoint (below) returns it
@@ -228,9 +236,13 @@ impl VxNodeOn {
     pub uninterp spec fn validator_spec(&self) -> VxValidator;
     #[verifier::external_body]
     pub fn validator(&self) -> (r: VxValidator) ensures r == self.validator_spec() { unimplemented!() }
-    // self.clock.now().as_secs(): the clock does not run backwards (the property's non-decreasing timestamps)
+    // self.clock.now(): the time since the epoch; the clock does not run backwards (the property's non-decreasing
+    // timestamps), i.e. its seconds are not before the start of the velocity control's newest bucket
+    pub uninterp spec fn clock_secs(&self) -> u64;
     #[verifier::external_body]
-    pub fn vx_now_secs(&self) -> (r: u64) ensures r >= self.fee_velocity_control.start_sec { unimplemented!() }
+    pub fn vx_clock_now(&self) -> (r: VxDuration)
+        ensures r.secs() == self.clock_secs(), self.clock_secs() >= self.fee_velocity_control.start_sec
+    { unimplemented!() }
 
     // what the validator was asked and answered, as one predicate over the request
     pub open spec fn onchain_accepted(self, v: VxValidator, tx: Transaction, segwit_flags: Seq<bool>, prev_outs: Seq<TxOut>,
@@ -245,6 +257,7 @@ impl VxNodeOn {
     pub open spec fn node_check_ok(o: VxNodeOn, f: VxNodeOn, tx: Transaction, segwit_flags: Seq<bool>, prev_outs: Seq<TxOut>,
         opaths: Seq<DerivationPath>, nb: u64, w: usize, now: u64) -> bool {
         &&& w > 0 && nb * 1000 <= u64::MAX
+        &&& now == o.clock_secs()                      // the velocity window is measured in SECONDS of the node's clock
         &&& o.onchain_accepted(o.validator_spec(), tx, segwit_flags, prev_outs, opaths, nb, w)
         &&& vc_accepts(vc_abs(o.fee_velocity_control), now, (nb * 1000) as u64)
         &&& vc_abs(f.fee_velocity_control) == vc_step(vc_abs(o.fee_velocity_control), now, (nb * 1000) as u64)
@@ -275,7 +288,7 @@ impl VxNodeOn {
 //@sub /validator\.validate_onchain_tx\(\s*self,/ => validator.validate_onchain_tx(&self.wallet,
 //@sub /drop\(channels_lock\);/ => 
 //@sub /let mut state = self\.get_state\(\);/ => 
-//@sub /let now = self\.clock\.now\(\)\.as_secs\(\);/ => let now = self.vx_now_secs();
+//@sub /self\.clock\.now\(\)/ => self.vx_clock_now()
 //@sub /state\.fee_velocity_control/ => self.fee_velocity_control
 //@end
 }
